@@ -92,6 +92,141 @@ def _walk_no_defs(stmts):
             stack.append(c)
 
 
+def _hoisted_locals(fd, log=None):
+    """`x = <expression>` at the top level of a function, x bound nowhere else, where the expression keeps its value from there to the
+    end of the function: built from constants, module-level names, parameters and locals that are not re-bound afterwards, attributes
+    of objects that are not changed afterwards (no attribute store through them, no method call on them, not passed on), len() / str()
+    / int(), arithmetic, comparisons, not / and / or and conditionals (also in the statement form `if c: x = a else: x = b`).
+    x is then a name for that expression: the expression is written where x is read and the binding dropped, so `old_len = len(old)`
+    or `text = obj._s` hoisted out of a loop read like the expressions they stand for."""
+    a = fd.args
+    params = {x.arg for x in a.posonlyargs + a.args + a.kwonlyargs} | ({a.vararg.arg} if a.vararg else set()) | ({a.kwarg.arg} if a.kwarg else set())
+    if any(isinstance(n, (ast.FunctionDef, ast.AsyncFunctionDef, ast.Lambda, ast.Global, ast.Nonlocal)) for n in ast.walk(fd) if n is not fd):
+        return
+    skip = (ast.expr_context, ast.operator, ast.cmpop, ast.boolop, ast.unaryop)
+    self_name = a.args[0].arg if a.args and a.args[0].arg in ('self', 'cls') else None
+    immutable = {x.arg for x in a.posonlyargs + a.args + a.kwonlyargs if x.annotation is not None and
+                 ast.unparse(x.annotation).replace("'", '') in ('str', 'int', 'bool', 'bytes', 'Optional[str]', 'Optional[int]')}
+    # names whose object is also reachable under another name: bound to a bare name, or put into a container
+    aliased = set()
+    for n in _walk_no_defs(fd.body):
+        if isinstance(n, ast.Assign) and isinstance(n.value, ast.Name):
+            aliased.add(n.value.id)
+        if isinstance(n, (ast.List, ast.Tuple, ast.Set, ast.Dict)) and isinstance(getattr(n, 'ctx', ast.Load()), ast.Load):
+            for x in (n.elts if not isinstance(n, ast.Dict) else n.values):
+                if isinstance(x, ast.Name):
+                    aliased.add(x.id)
+        if isinstance(n, (ast.Return, ast.Yield)) and isinstance(n.value, ast.Name):
+            aliased.add(n.value.id)
+
+    def index():
+        return {id(n): i for i, n in enumerate(_walk_no_defs(fd.body)) if not isinstance(n, skip)}
+    for _round in range(12):
+        order = index()
+        nodes = [n for n in _walk_no_defs(fd.body) if not isinstance(n, skip)]
+        sto = _stores(fd.body)
+        done = False
+        for st in list(fd.body):
+            name, parts = None, None
+            if isinstance(st, ast.Assign) and len(st.targets) == 1 and isinstance(st.targets[0], ast.Name) and sto.get(st.targets[0].id) == 1 and \
+                    not isinstance(st.value, (ast.Constant, ast.Name)):
+                name, parts = st.targets[0].id, [st.value]
+            elif isinstance(st, ast.If) and len(st.body) == 1 and len(st.orelse) == 1 and all(
+                    isinstance(b, ast.Assign) and len(b.targets) == 1 and isinstance(b.targets[0], ast.Name) for b in (st.body[0], st.orelse[0])) and \
+                    st.body[0].targets[0].id == st.orelse[0].targets[0].id and sto.get(st.body[0].targets[0].id) == 2:
+                name, parts = st.body[0].targets[0].id, [st.test, st.body[0].value, st.orelse[0].value]
+            if name is None or name in params:
+                continue
+            last = max(order[id(n)] for n in ast.walk(st) if id(n) in order)
+            later = [n for n in nodes if order[id(n)] > last]
+            rebound = {n.id for n in later if isinstance(n, ast.Name) and isinstance(n.ctx, (ast.Store, ast.Del))}
+            changed = set()         # names whose object may change after the statement
+            attr_stored = set()
+            for n in later:
+                if isinstance(n, (ast.Attribute, ast.Subscript)) and isinstance(n.ctx, (ast.Store, ast.Del)):
+                    r_ = n.value
+                    while isinstance(r_, (ast.Attribute, ast.Subscript)):
+                        r_ = r_.value
+                    if isinstance(r_, ast.Name):
+                        changed.add(r_.id)
+                    if isinstance(n, ast.Attribute):
+                        attr_stored.add(n.attr)
+                if isinstance(n, ast.Call):
+                    if isinstance(n.func, ast.Attribute):
+                        r_ = n.func.value
+                        while isinstance(r_, (ast.Attribute, ast.Subscript)):
+                            r_ = r_.value
+                        if isinstance(r_, ast.Name):
+                            changed.add(r_.id)
+                    if not (isinstance(n.func, ast.Name) and n.func.id in ('len', 'str', 'int', 'isinstance', 'bool', 'range', 'enumerate', 'min', 'max')):
+                        for a_ in list(n.args) + [k.value for k in n.keywords]:
+                            if isinstance(a_, ast.Name):
+                                changed.add(a_.id)
+                            elif isinstance(a_, ast.Starred) and isinstance(a_.value, ast.Name):
+                                changed.add(a_.value.id)
+                if isinstance(n, ast.AugAssign) and isinstance(n.target, ast.Name):
+                    changed.add(n.target.id)
+
+            def pure(e, value_only=True):
+                if isinstance(e, ast.Constant):
+                    return True
+                if isinstance(e, ast.Name):
+                    if not isinstance(e.ctx, ast.Load) or e.id in rebound:
+                        return False
+                    return e.id not in sto or not value_only       # a bare local is not read through (it is a name of its own); a parameter or a global is
+                if isinstance(e, ast.Attribute):
+                    r_ = e
+                    while isinstance(r_, ast.Attribute):
+                        if r_.attr in attr_stored:
+                            return False
+                        r_ = r_.value
+                    if not isinstance(r_, ast.Name) or r_.id in rebound:
+                        return False
+                    if r_.id in sto or r_.id in params:
+                        return r_.id not in changed
+                    return True         # a module-level constant chain: AnsiParam.RESET.value
+                if isinstance(e, ast.Call):
+                    if not (isinstance(e.func, ast.Name) and e.func.id in ('len', 'str', 'int') and e.func.id not in sto and e.func.id not in params and
+                            len(e.args) == 1 and not e.keywords):
+                        return False
+                    a0 = e.args[0]
+                    if isinstance(a0, ast.Name) and a0.id in immutable and a0.id not in sto:
+                        return True           # a parameter annotated str / int / bool / bytes: its length cannot change
+                    if isinstance(a0, ast.Name) and (a0.id in sto or a0.id in params):
+                        if a0.id in changed:
+                            return False      # len(obj) of an object that is changed later
+                        if attr_stored and not (a0.id in params and a0.id not in sto and a0.id != self_name and a0.id not in aliased):
+                            return False      # ... or that may be changed later under another name
+                    return pure(a0, value_only=False)
+                if isinstance(e, ast.UnaryOp):
+                    return isinstance(e.op, (ast.Not, ast.USub)) and pure(e.operand)
+                if isinstance(e, ast.BinOp):
+                    return isinstance(e.op, (ast.Add, ast.Sub)) and pure(e.left) and pure(e.right)
+                if isinstance(e, ast.BoolOp):
+                    return all(pure(v) for v in e.values)
+                if isinstance(e, ast.Compare):
+                    return pure(e.left) and all(pure(c) for c in e.comparators) and \
+                        all(isinstance(o, (ast.Eq, ast.NotEq, ast.Lt, ast.LtE, ast.Gt, ast.GtE, ast.Is, ast.IsNot)) for o in e.ops)
+                if isinstance(e, ast.IfExp):
+                    return pure(e.test) and pure(e.body) and pure(e.orelse)
+                return False
+            if not all(pure(p_) for p_ in parts):
+                continue
+            if len(parts) == 3 and any(isinstance(x, (ast.Attribute, ast.Name)) for x in parts[1:]):
+                continue        # a choice between two objects (one of two lists) stays a local of its own
+            loads = [n for n in nodes if isinstance(n, ast.Name) and n.id == name and isinstance(n.ctx, ast.Load)]
+            if not loads or any(order[id(n)] <= last for n in loads):
+                continue
+            expr = parts[0] if len(parts) == 1 else ast.IfExp(test=parts[0], body=parts[1], orelse=parts[2])
+            fd.body = [_Subst({name: expr}).visit(b) for b in fd.body if b is not st]
+            if log is not None:
+                log.append('# hoisted local %s read as %s in %s' % (name, ast.unparse(expr), fd.name))
+            done = True
+            break
+        if not done:
+            break
+
+
 def _stores(stmts):
     out = {}
     for n in _walk_no_defs(stmts):
@@ -294,6 +429,13 @@ class Inliner:
                 hcls = cls
             elif isinstance(base, ast.Name) and base.id in self.class_methods:
                 hcls = base.id
+            elif isinstance(base, ast.Name):
+                # a new private method called on another object (obj._h(..) with obj a copy of self): the only class that defines _h
+                owners = [c for (c, n_) in self.helpers if n_ == f.attr and c is not None]
+                if cls and (cls, f.attr) in self.helpers:
+                    hcls, via_instance = cls, True
+                elif len(owners) == 1:
+                    hcls, via_instance = owners[0], True
             if hcls is None:
                 return None
             h = self.helpers.get((hcls, f.attr))
@@ -379,7 +521,11 @@ class Inliner:
         for name in list(local_helpers):
             uses = [n for n in ast.walk(fd) if isinstance(n, ast.Name) and n.id == name and isinstance(n.ctx, ast.Load)]
             calls = [n for n in ast.walk(fd) if isinstance(n, ast.Call) and isinstance(n.func, ast.Name) and n.func.id == name]
-            if len(uses) != len(calls) or _expr_helper(local_helpers[name]) is None or _stores(fd.body).get(name, 0) > 1:
+            # a nested def that is not one expression is usable when every call of it is a statement of its own (h(..) / x = h(..) / return h(..))
+            stmt_calls = {id(n.value) for n in ast.walk(fd) if isinstance(n, (ast.Expr, ast.Return)) or (isinstance(n, ast.Assign) and len(n.targets) == 1)
+                          if isinstance(getattr(n, 'value', None), ast.Call)}
+            usable = _expr_helper(local_helpers[name]) is not None or (calls and all(id(c) in stmt_calls for c in calls))
+            if len(uses) != len(calls) or not usable or _stores(fd.body).get(name, 0) > 1:
                 del local_helpers[name]
             else:
                 # recursion?
@@ -723,10 +869,37 @@ class Inliner:
                             kws.append(k)
                     n.keywords = kws
                 return n
+        class J(ast.NodeTransformer):
+            # a comprehension over a literal tuple is the literal list of its elements; 'sep'.join of a literal list is a concatenation
+            def visit_ListComp(self, n):
+                self.generic_visit(n)
+                if len(n.generators) == 1 and not n.generators[0].ifs and isinstance(n.generators[0].target, ast.Name) and \
+                        isinstance(n.generators[0].iter, (ast.Tuple, ast.List)) and len(n.generators[0].iter.elts) <= 8 and \
+                        not any(isinstance(e_, ast.Starred) for e_ in n.generators[0].iter.elts):
+                    nm_ = n.generators[0].target.id
+                    return ast.copy_location(ast.List(elts=[_Subst({nm_: e_}).visit(astcopy(n.elt)) for e_ in n.generators[0].iter.elts], ctx=ast.Load()), n)
+                return n
+
+            def visit_GeneratorExp(self, n):
+                return self.visit_ListComp(n) if False else self.generic_visit(n)
+
+            def visit_Call(self, n):
+                self.generic_visit(n)
+                if isinstance(n.func, ast.Attribute) and n.func.attr == 'join' and len(n.args) == 1 and not n.keywords and \
+                        isinstance(n.func.value, (ast.Constant, ast.Name)) and isinstance(n.args[0], (ast.List, ast.Tuple)) and 1 <= len(n.args[0].elts) <= 8 and \
+                        not any(isinstance(e_, ast.Starred) for e_ in n.args[0].elts) and \
+                        (not isinstance(n.func.value, ast.Constant) or isinstance(n.func.value.value, str)):
+                    out = n.args[0].elts[0]
+                    for e_ in n.args[0].elts[1:]:
+                        out = ast.BinOp(left=ast.BinOp(left=out, op=ast.Add(), right=astcopy(n.func.value)), op=ast.Add(), right=e_)
+                    return ast.copy_location(out, n)
+                return n
+
         class T(ast.NodeTransformer):
             def visit_Assign(self, n):
-                if len(n.targets) == 1 and isinstance(n.targets[0], ast.Tuple) and isinstance(n.value, ast.Tuple) and \
-                        len(n.targets[0].elts) == len(n.value.elts) and all(isinstance(x, ast.Name) for x in n.targets[0].elts):
+                if len(n.targets) == 1 and isinstance(n.targets[0], (ast.Tuple, ast.List)) and isinstance(n.value, (ast.Tuple, ast.List)) and \
+                        len(n.targets[0].elts) == len(n.value.elts) and all(isinstance(x, ast.Name) for x in n.targets[0].elts) and \
+                        not any(isinstance(x, ast.Starred) for x in n.value.elts):
                     tg = [x.id for x in n.targets[0].elts]
                     vs = n.value.elts
                     if tg == [getattr(v, 'id', None) for v in vs]:
@@ -818,7 +991,9 @@ class Inliner:
                 return n
         for tree in self.trees.values():
             S().visit(tree)
+            J().visit(tree)
             T().visit(tree)
+            ast.fix_missing_locations(tree)
             for fd in [n for n in ast.walk(tree) if isinstance(n, ast.FunctionDef)]:
                 # local tables: a name assigned once, a literal tuple / list of tuples, only ever iterated
                 tables.clear()
@@ -838,6 +1013,11 @@ class Inliner:
                                                                    for x in ast.walk(fd)))] or fd.body
                 _groups_desugar(fd)
                 _method_choice(fd)
+                _copy_in_copy_out(fd)
+                _extend_as_loop(fd)
+                _get_or_create(fd)
+                _filter_then_loop(fd)
+                _hoisted_locals(fd, self.log)
             F().visit(tree)
             _drop_pass(tree)
 
@@ -1032,6 +1212,187 @@ def _groups_desugar(fd):
                     continue
             i += 1
     walk_blocks(fd.body)
+
+
+def _get_or_create(fd):
+    """`x = D.get(k)` followed by `if x is None: x = D[k] = V` (or the two stores as separate statements) is the look-up-or-insert
+    idiom: written as `if k not in D: D[k] = V` followed by `x = D[k]`, the form the repository uses."""
+    def dump(e):
+        return ast.dump(e)
+
+    def rewrite(stmts):
+        i = 0
+        while i < len(stmts):
+            st = stmts[i]
+            for fld in ('body', 'orelse', 'finalbody'):
+                L = getattr(st, fld, None)
+                if isinstance(L, list) and L and isinstance(L[0], ast.stmt) and not isinstance(st, (ast.FunctionDef, ast.ClassDef)):
+                    rewrite(L)
+            if isinstance(st, ast.Try):
+                for h in st.handlers:
+                    rewrite(h.body)
+            nxt = stmts[i + 1] if i + 1 < len(stmts) else None
+            if isinstance(st, ast.Assign) and len(st.targets) == 1 and isinstance(st.targets[0], ast.Name) and isinstance(st.value, ast.Call) and \
+                    isinstance(st.value.func, ast.Attribute) and st.value.func.attr == 'get' and not st.value.keywords and \
+                    (len(st.value.args) == 1 or (len(st.value.args) == 2 and isinstance(st.value.args[1], ast.Constant) and st.value.args[1].value is None)) and \
+                    isinstance(nxt, ast.If) and not nxt.orelse and isinstance(nxt.test, ast.Compare) and len(nxt.test.ops) == 1 and isinstance(nxt.test.ops[0], ast.Is) and \
+                    isinstance(nxt.test.left, ast.Name) and nxt.test.left.id == st.targets[0].id and isinstance(nxt.test.comparators[0], ast.Constant) and \
+                    nxt.test.comparators[0].value is None:
+                x, D, k = st.targets[0].id, st.value.func.value, st.value.args[0]
+                item = ast.Subscript(value=D, slice=k, ctx=ast.Store())
+                V = None
+                b = nxt.body
+                if len(b) == 1 and isinstance(b[0], ast.Assign) and len(b[0].targets) == 2:
+                    names = [t for t in b[0].targets if isinstance(t, ast.Name) and t.id == x]
+                    subs = [t for t in b[0].targets if isinstance(t, ast.Subscript) and dump(t.value) == dump(D) and dump(t.slice) == dump(k)]
+                    if len(names) == 1 and len(subs) == 1:
+                        V = b[0].value
+                elif len(b) == 2 and all(isinstance(y, ast.Assign) and len(y.targets) == 1 for y in b):
+                    t0, t1 = b[0].targets[0], b[1].targets[0]
+                    if isinstance(t0, ast.Name) and t0.id == x and isinstance(t1, ast.Subscript) and dump(t1.value) == dump(D) and dump(t1.slice) == dump(k) and \
+                            isinstance(b[1].value, ast.Name) and b[1].value.id == x:
+                        V = b[0].value
+                    elif isinstance(t0, ast.Subscript) and dump(t0.value) == dump(D) and dump(t0.slice) == dump(k) and isinstance(t1, ast.Name) and t1.id == x and \
+                            dump(b[1].value) == dump(ast.Subscript(value=D, slice=k, ctx=ast.Load())):
+                        V = b[0].value
+                if V is not None and not any(isinstance(n, ast.Name) and n.id == x for n in ast.walk(V)):
+                    guard = ast.copy_location(ast.If(test=ast.Compare(left=astcopy(k), ops=[ast.NotIn()], comparators=[astcopy(D)]),
+                                                     body=[ast.copy_location(ast.Assign(targets=[item], value=V, type_comment=None), nxt)], orelse=[]), nxt)
+                    read = ast.copy_location(ast.Assign(targets=[ast.Name(id=x, ctx=ast.Store())],
+                                                        value=ast.Subscript(value=astcopy(D), slice=astcopy(k), ctx=ast.Load()), type_comment=None), st)
+                    ast.fix_missing_locations(guard)
+                    ast.fix_missing_locations(read)
+                    stmts[i:i + 2] = [guard, read]
+                    i += 2
+                    continue
+            i += 1
+    rewrite(fd.body)
+
+
+def _filter_then_loop(fd):
+    """`L = [x for x in IT if C]` followed (next statement) by `for y in L: BODY`, L used nowhere else, IT a materialised sequence
+    (sorted / list / tuple / reversed / range call, or a plain name) and C reading nothing BODY binds: the same as `for y in IT: if C[y/x]: BODY`."""
+    def rewrite(stmts):
+        i = 0
+        while i < len(stmts):
+            st = stmts[i]
+            for fld in ('body', 'orelse', 'finalbody'):
+                L = getattr(st, fld, None)
+                if isinstance(L, list) and L and isinstance(L[0], ast.stmt) and not isinstance(st, (ast.FunctionDef, ast.ClassDef)):
+                    rewrite(L)
+            nxt = stmts[i + 1] if i + 1 < len(stmts) else None
+            if isinstance(st, ast.Assign) and len(st.targets) == 1 and isinstance(st.targets[0], ast.Name) and isinstance(st.value, ast.ListComp) and \
+                    len(st.value.generators) == 1 and isinstance(st.value.generators[0].target, ast.Name) and isinstance(st.value.elt, ast.Name) and \
+                    st.value.elt.id == st.value.generators[0].target.id and st.value.generators[0].ifs and \
+                    isinstance(nxt, ast.For) and not nxt.orelse and isinstance(nxt.iter, ast.Name) and nxt.iter.id == st.targets[0].id and isinstance(nxt.target, ast.Name):
+                Lname = st.targets[0].id
+                g = st.value.generators[0]
+                uses = [n for n in _walk_no_defs(fd.body) if isinstance(n, ast.Name) and n.id == Lname]
+                it_ok = isinstance(g.iter, ast.Name) or (isinstance(g.iter, ast.Call) and isinstance(g.iter.func, ast.Name) and
+                                                           g.iter.func.id in ('sorted', 'list', 'tuple', 'reversed', 'range'))
+                bound = set(_stores(nxt.body))
+                reads = {n.id for c in g.ifs for n in ast.walk(c) if isinstance(n, ast.Name)}
+                jumps_else = False
+                if len(uses) == 2 and it_ok and not (reads & bound) and not jumps_else:
+                    conds = [_Subst({g.target.id: ast.Name(id=nxt.target.id, ctx=ast.Load())}).visit(astcopy(c)) for c in g.ifs]
+                    test = conds[0] if len(conds) == 1 else ast.BoolOp(op=ast.And(), values=conds)
+                    inner = ast.copy_location(ast.If(test=test, body=nxt.body, orelse=[]), nxt)
+                    loop = ast.copy_location(ast.For(target=nxt.target, iter=g.iter, body=[inner], orelse=[], type_comment=None), nxt)
+                    ast.fix_missing_locations(loop)
+                    stmts[i:i + 2] = [loop]
+                    continue
+            i += 1
+    rewrite(fd.body)
+
+
+def _copy_in_copy_out(fd):
+    """`a = b` ... `b = a` in one statement list, b untouched in between and a used nowhere else in the function (what inlining a helper
+    that re-binds its own parameter leaves behind): the statements in between with a written as b, without the two copies."""
+    def occurrences(nodes, name):
+        return [n for st in nodes for n in _walk_no_defs([st]) if isinstance(n, ast.Name) and n.id == name]
+
+    def rewrite(stmts):
+        changed = True
+        while changed:
+            changed = False
+            for i, st in enumerate(stmts):
+                if not (isinstance(st, ast.Assign) and len(st.targets) == 1 and isinstance(st.targets[0], ast.Name) and isinstance(st.value, ast.Name)):
+                    continue
+                a_, b_ = st.targets[0].id, st.value.id
+                if a_ == b_:
+                    continue
+                for j in range(i + 1, len(stmts)):
+                    sj = stmts[j]
+                    if isinstance(sj, ast.Assign) and len(sj.targets) == 1 and isinstance(sj.targets[0], ast.Name) and sj.targets[0].id == b_ and \
+                            isinstance(sj.value, ast.Name) and sj.value.id == a_:
+                        mid = stmts[i + 1:j]
+                        if occurrences(mid, b_):
+                            break
+                        total = len(occurrences(fd.body, a_))
+                        inside = len(occurrences(stmts[i:j + 1], a_))
+                        if total != inside:
+                            break
+                        stmts[i:j + 1] = [_Rename({a_: b_}).visit(x) for x in mid]
+                        changed = True
+                        break
+                if changed:
+                    break
+        for st in stmts:
+            for fld in ('body', 'orelse', 'finalbody'):
+                L = getattr(st, fld, None)
+                if isinstance(L, list) and L and isinstance(L[0], ast.stmt) and not isinstance(st, (ast.FunctionDef, ast.ClassDef)):
+                    rewrite(L)
+            if isinstance(st, ast.Try):
+                for h in st.handlers:
+                    rewrite(h.body)
+    rewrite(fd.body)
+
+
+def _extend_as_loop(fd):
+    """`L.extend(e for x in IT if C)` / `L += [e for x in IT if C]` as statements (L a plain name that the comprehension does not read):
+    `for x in IT: if C: L.append(e)`."""
+    def conv(st):
+        comp, L = None, None
+        if isinstance(st, ast.Expr) and isinstance(st.value, ast.Call) and isinstance(st.value.func, ast.Attribute) and st.value.func.attr == 'extend' and \
+                isinstance(st.value.func.value, ast.Name) and len(st.value.args) == 1 and not st.value.keywords and \
+                isinstance(st.value.args[0], (ast.ListComp, ast.GeneratorExp)):
+            comp, L = st.value.args[0], st.value.func.value.id
+        elif isinstance(st, ast.AugAssign) and isinstance(st.op, ast.Add) and isinstance(st.target, ast.Name) and isinstance(st.value, ast.ListComp):
+            comp, L = st.value, st.target.id
+        if comp is None or any(isinstance(n, ast.Name) and n.id == L for n in ast.walk(comp)) or any(g.is_async for g in comp.generators):
+            return None
+        body = [ast.Expr(value=ast.Call(func=ast.Attribute(value=ast.Name(id=L, ctx=ast.Load()), attr='append', ctx=ast.Load()), args=[comp.elt], keywords=[]))]
+        for g in reversed(comp.generators):
+            if g.ifs:
+                test = g.ifs[0] if len(g.ifs) == 1 else ast.BoolOp(op=ast.And(), values=list(g.ifs))
+                body = [ast.If(test=test, body=body, orelse=[])]
+            body = [ast.For(target=g.target, iter=g.iter, body=body, orelse=[], type_comment=None)]
+        loop = ast.copy_location(body[0], st)
+        ast.fix_missing_locations(loop)
+        return loop
+
+    def rewrite(stmts):
+        for i, st in enumerate(stmts):
+            for fld in ('body', 'orelse', 'finalbody'):
+                L = getattr(st, fld, None)
+                if isinstance(L, list) and L and isinstance(L[0], ast.stmt) and not isinstance(st, (ast.FunctionDef, ast.ClassDef)):
+                    rewrite(L)
+            if isinstance(st, ast.Try):
+                for h in st.handlers:
+                    rewrite(h.body)
+            new = conv(st)
+            if new is not None:
+                # the comprehension's variables are local to it: keep the rewrite only when they do not clash with names of the function
+                names = {n.id for g in (st.value.args[0] if isinstance(st, ast.Expr) else st.value).generators for n in ast.walk(g.target) if isinstance(n, ast.Name)}
+                clash = False
+                for nm in names:
+                    cnt_all = sum(1 for n in _walk_no_defs(fd.body) if isinstance(n, ast.Name) and n.id == nm)
+                    cnt_in = sum(1 for n in ast.walk(st) if isinstance(n, ast.Name) and n.id == nm)
+                    if cnt_all != cnt_in or nm in {a.arg for a in fd.args.args + fd.args.kwonlyargs}:
+                        clash = True
+                if not clash:
+                    stmts[i] = new
+    rewrite(fd.body)
 
 
 def _method_choice(fd):
